@@ -34,7 +34,7 @@ class C11(BaseCheck):
              'scales.kafka.sink:KafkaTransportSink._ProcessReply')
   REQUIRED_ANCHORS = ANCHORS
   REQUIRED_CLASSES = ('thriftmux', 'kafka', 'adv:duplicate-reply', 'adv:unknown-tag', 'adv:reserved-tag-1',
-                      'adv:tag-0', 'adv:huge-tag', 'adv:bitflip-tag', 'error-frame-replies', 'kafka:timeouts', 'tagpool:exhausted', 'tagpool:get-after-refusal', 'direct:bare-messages', 'direct:expired-while-opening', 'timeout-before-send', 'timeout-after-send', 're-open',
+                      'adv:tag-0', 'adv:huge-tag', 'adv:bitflip-tag', 'error-frame-replies', 'kafka:timeouts', 'tagpool:exhausted', 'tagpool:get-after-refusal', 'direct:bare-messages', 'direct:expired-while-opening', 'direct:retry-from-reply-handler', 'timeout-before-send', 'timeout-after-send', 're-open',
                       'tag-reuse')
   ASSUMPTIONS = ('a tag counts as answered when the client has read the last byte of any R-frame carrying it '
                  '(known from the simulated socket\'s read offsets)',)
@@ -259,7 +259,18 @@ class C11(BaseCheck):
     net.reset()
     _PORT[0] += 1
     port = _PORT[0]
-    srv = servers.MuxServer(net, 'dm', port, servers.DefaultPolicy(0.002))
+    retry = rng.random() < 0.5       # the caller retries a failed call at once, from its reply handler
+    attempts_seen = {}
+
+    class RetryPolicy(servers.DefaultPolicy):
+      # first attempts are answered with an error frame (current or legacy encoding), retries normally
+      def __call__(self, server, conn, req):
+        a0 = req['call'][1][0] if req.get('call') and req['call'][1] else None
+        attempts_seen[a0] = attempts_seen.get(a0, 0) + 1
+        if attempts_seen[a0] == 1 and rng.random() < 0.6:
+          return {'delay': 0.002, 'as': rng.choice(['rerr', 'bad_rerr'])}
+        return {'delay': 0.002}
+    srv = servers.MuxServer(net, 'dm', port, RetryPolicy() if retry else servers.DefaultPolicy(0.002))
     tp = MuxTransport.Builder()
     sp = ThriftMuxMessageSerializerSink.Builder()
     sp.next_provider = tp
@@ -272,24 +283,36 @@ class C11(BaseCheck):
       out.violate('direct:open-failed', repr(e), {'transport': 'thriftmux-direct'})
       return
 
+    retried = []
+
     class Term(ClientMessageSink):
       def AsyncProcessRequest(self, *a):
         raise NotImplementedError()
 
       def AsyncProcessResponse(self, sink_stack, context, stream, msg):
-        pass
+        if retry and context is not None and msg.error is not None and not context.get('retried'):
+          # same message object, same connection, synchronously from inside the reply callback
+          context['retried'] = True
+          retried.append(context)
+          classes.add('direct:retry-from-reply-handler')
+          st2 = ClientMessageSinkStack()
+          st2.Push(self, context)
+          top.AsyncProcessRequest(st2, context['msg'], None, {})
+        elif context is not None:
+          context['done'] = context.get('done', 0) + 1
     term = Term()
-    srv.sim.send_delay = lambda conn: rng.choice([0.0, 0.02, 0.05])
+    if not retry:
+      srv.sim.send_delay = lambda conn: rng.choice([0.0, 0.02, 0.05])
     n = 0
     for _ in range(rng.choice([6, 15, 30])):
       for _b in range(rng.randint(1, 4)):
         msg = MethodCallMessage(ExtService.Iface, 'echo', ('d%d' % n,), {})    # no properties at all
         st = ClientMessageSinkStack()
-        st.Push(term, None)
+        st.Push(term, {'msg': msg, 'arg': 'd%d' % n} if retry else None)
         gevent.spawn(top.AsyncProcessRequest, st, msg, None, {})
         n += 1
       env.advance(rng.choice([0.0, 0.001, 0.01]))
-      if rng.random() < 0.6 and srv.sim.conns:
+      if not retry and rng.random() < 0.6 and srv.sim.conns:
         conn = srv.sim.conns[-1]
         seen = [q['tag'] for q in srv.requests if q['conn'] == conn.id]
         t = max(seen or [1]) + rng.choice([1, 1, 2])       # queued, not written yet (or never issued)
@@ -298,6 +321,16 @@ class C11(BaseCheck):
     srv.sim.send_delay = None
     env.advance(1.0)
     self._monitor(env, out, None, 'srv.frame', {'transport': 'thriftmux-direct', 'adversarial': ['early-reply']})
+    if retried and not srv.bad_frames and any(not c.client_closed and not c.server_closed for c in srv.sim.conns):
+      # every retry handed to the transport on a connection that is still up was written and answered
+      seen_args = [q['call'][1][0] for q in srv.requests if q.get('call') and q['call'][1]]
+      for ctx in retried:
+        out.obligations += 1
+        if not ctx.get('done'):
+          out.violate('direct:retry-never-completed', 'the retry of %s, handed to the transport from the reply handler of its '
+                      'failed first attempt, never completed (the peer saw that argument %d time(s)) although the connection is up' % (
+                        ctx['arg'], seen_args.count(ctx['arg'])), {'transport': 'thriftmux-direct', 'written': seen_args.count(ctx['arg'])})
+          break
     for bf in srv.bad_frames:
       out.violate('bad-frame', 'server could not decode client bytes: %r' % (bf,), {'transport': 'thriftmux-direct'})
     top.Close()
